@@ -117,6 +117,8 @@ RandCases ==
   \o SetToSeq({ [op |-> "rand.fq", stream |-> Cat([i \in 1..Len(FqCands[k]) |-> LE(FqCands[k][i], 48)]), src |-> "gen"] : k \in 1..Len(FqCands) })
   \o SetToSeq({ [op |-> "rand.fq2", stream |-> Cat([i \in 1..Len(FqCands[k]) |-> LE(FqCands[k][i], 48)]), src |-> "gen"] : k \in 1..Len(FqCands) })
   \o SetToSeq({ [op |-> "rand.powx", stream |-> s, src |-> "gen"] : s \in PowXStreams })
+  \* the non-zero sampler: a first draw of zero (32 zero bytes), then a value; the decomposed form must follow the redraw
+  \o SetToSeq({ [op |-> o, stream |-> Cat(<<LE(Zero, 32), LE(v, 32)>>), cls |-> "zero-first-draw", src |-> "gen"] : o \in {"rand.zpstar", "rand.zp"}, v \in { One, Sub(RMod, One), ModN(Rnd(71), RMod) } })
   \* long runs of rejected draws before the accepted one (the rejection loop has no bound: the n-th draw is as good as the first)
   \o SetToSeq({ [op |-> o, stream |-> Cat([i \in 1..(n + 1) |-> LE(IF i <= n THEN Add(RMod, FromNat(i)) ELSE Sub(RMod, FromNat(n)), 32)]), cls |-> "long-rejection-run", src |-> "gen"] :
                 o \in {"rand.zp", "rand.zpstar"}, n \in RunLens })
